@@ -15,7 +15,7 @@ func init() {
 	register("C15", &propDef{
 		Title:           "Unpack materialises exactly what a well-formed archive says",
 		ConfigSensitive: true,
-		Rules: []func(*Checker){ruleGate("C15.gate"), ruleC15Deferred, ruleC15Truncate, ruleMaterialise("C15.materialise"), ruleRestore("C15.restore"), ruleMeta("C15.meta"), ruleC01NoFollowAs("C15.lastwins"), ruleC15XHeader, ruleC15Retry, ruleLinkRestore("C15.linkrestore"), aliasRule(ruleC01Replace, "C01.replace", "C15.replace", 1),
+		Rules: []func(*Checker){ruleGate("C15.gate"), ruleC15Deferred, ruleC15Truncate, ruleMaterialise("C15.materialise"), ruleRestore("C15.restore"), ruleMeta("C15.meta"), ruleC01NoFollowAs("C15.lastwins"), ruleC15XHeader, ruleC15Retry, ruleLinkRestore("C15.linkrestore"), ruleRestoreOrderKept("C15.stableorder"), aliasRule(ruleC01Replace, "C01.replace", "C15.replace", 1),
 			aliasRuleFiltered(ruleC02LinkTarget, "C02.linktarget", "C15.linktarget", 1, func(o Oblig) bool { return strings.Contains(o.Key, "Unpack") }),
 			func(c *Checker) {
 				unpackHelpers = map[string]bool{}
@@ -37,7 +37,7 @@ func init() {
 	register("C02", &propDef{
 		Title:           "Pack followed by Unpack reproduces the source tree",
 		ConfigSensitive: true,
-		Rules: []func(*Checker){ruleC02Kinds, ruleMaterialise("C02.materialise"), ruleRestore("C02.restore"), ruleC02Fields, ruleMeta("C02.meta"), ruleC02Omit, ruleC04Accept2("C02.links"), aliasRule(ruleC05Link, "C05.link", "C02.linkkept", 2), ruleC02LinkTarget, ruleLinkPrecise("C02.linkprecise"), ruleFilesClosed("C02.closed"), ruleLinkRestore("C02.linkrestore"), ruleEntryNameAsSpelled("C02.namekept"), rulePackerWriters("C02.percall"),
+		Rules: []func(*Checker){ruleC02Kinds, ruleMaterialise("C02.materialise"), ruleRestore("C02.restore"), ruleC02Fields, ruleMeta("C02.meta"), ruleC02Omit, ruleC04Accept2("C02.links"), aliasRule(ruleC05Link, "C05.link", "C02.linkkept", 2), ruleC02LinkTarget, ruleLinkPrecise("C02.linkprecise"), ruleFilesClosed("C02.closed"), ruleLinkRestore("C02.linkrestore"), ruleEntryNameAsSpelled("C02.namekept"), rulePackerWriters("C02.percall"), ruleBodyReadToEnd("C02.fullread"),
 			aliasRuleFiltered(ruleC03Prune, "C03.prune", "C02.skipdir", 1, func(o Oblig) bool { return strings.Contains(o.Key, "SkipDir only for directories") }),
 			aliasRuleFiltered(ruleC12Whole, "C12.whole", "C02.noskip", 1, func(o Oblig) bool { return strings.Contains(o.Key, "back edge") })},
 		NotDecided: []string{
